@@ -1,5 +1,6 @@
 """C10 — Every IDE query answers on every workspace, however broken (panic reachability, query cycles, unbounded recursion)."""
 from lib.report import lookup_reviewed as RP_lookup
+from lib.inventory import guards_hold
 from lib import flow as FL
 from lib import panics as PN
 from lib import pcache
@@ -69,14 +70,22 @@ def run(F, res, tier):
             rv = RP_lookup(reviewed, "Q1/" + full, FL.guard_signature(F, f, b, defs))
             if rv:
                 guards = FL.guard_signature(F, f, b, defs)
-                if set(rv.get("guards", [])) <= set(guards):
+                if guards_hold(rv.get("guards", []), guards):
                     res.ob("Q1", full, desc, True, where=f.loc(ln), how="reviewed: %s [guards: %s]" % (rv["reason"], guards), reviewed=True)
+                elif INV.renumbered(f, key.rsplit("/", 1)[0], guards):
+                    res.ob("Q1", full, desc, True, where=f.loc(ln), reviewed=True,
+                           how="reviewed under another ordinal of the same function (a site was added or removed before it); its recorded conditions hold here")
                 else:
                     res.ob("Q1", full, desc, False, where=f.loc(ln),
                            how="the conditions guarding this reviewed site changed since it was reviewed: now %s, reviewed with %s (reason then: %s)"
                            % (guards, rv.get("guards", []), rv["reason"]))
                 continue
             path = " <- ".join(x.rsplit("::", 1)[-1] for x in reversed(F.path_to(seen, p)[-4:]))
+            rn = INV.renumbered(f, key.rsplit("/", 1)[0], FL.guard_signature(F, f, b, defs))
+            if rn:
+                res.ob("Q1", full, desc, True, where=f.loc(ln), reviewed=True,
+                       how="reviewed under another ordinal of the same function; its recorded conditions hold here: " + rn["reason"])
+                continue
             mv, mv_from = INV.moved(f, b, key.rsplit("/", 1)[0], FL.guard_signature(F, f, b, defs))
             if mv:
                 res.ob("Q1", full, desc, True, where=f.loc(ln), reviewed=True,
@@ -288,7 +297,11 @@ def declared_everywhere(F, res):
     its loop iteration. dependency_order lists a file's functions from `declarations`, and infer_function_query expects
     (`.expect(..)`) to find every interned function in one of the groups: a function that is interned but not declared —
     e.g. the second of two functions with one name, if recording became conditional — panics every query that needs it."""
-    fn = F.fn("ide::def::scope::module_scope_with_map_query")
+    from lib import inline as IL
+    fn0 = F.fn("ide::def::scope::module_scope_with_map_query")
+    # with helpers of the scope module that only this query calls inlined (`self.declare(name, def, vis)`)
+    fn = IL.inlined(F, fn0, want=lambda p: p.startswith("ide::def::scope::") and "resolve_import" not in p and
+                    {f_.path for f_, b_, t_ in F.callers_of(lambda c, p=p: c == p)} <= set(F.with_closures(fn0.path)), depth=1)
     d = FL.Defs(fn)
     loops = [(tail, head, fn.natural_loop(tail, head)) for tail, head in fn.back_edges()]
     pushes = []
